@@ -18,6 +18,15 @@ SIM_ASSUME = [
 ]
 
 PROPS = {
+    "C44": dict(
+        pkg="internal/repository", test="TestVerifC44", level="exploration", quick_s=40, thorough_s=600,
+        rule="one run = one seeded schedule of 1-4 submitters saving 1-40 generated blobs (1 byte .. 3x pack size, both types, duplicates) "
+             "through WithBlobUploader with pack size 2KiB-256KiB, 1-5 connections, 1-8 virtual cores, index-full threshold 3/10/40/real, "
+             "format 1/2, compression off/auto/max, a third of the runs with transient Save errors; distinct = distinct event-log hash "
+             "among runs with >=1 real scheduling choice or fired fault",
+        real_vs_stub="real: Repository, packerManager, packerUploader, pack.Packer, MasterIndex, crypto, zstd, errgroup; simulated: object store, goroutine choice, crypto/rand",
+        assumptions=SIM_ASSUME + ["the header-entry limit (about 409k entries) is checked on every pack but not reached by the generated workloads"],
+    ),
     "C47": dict(
         pkg="internal/bloblru", test="TestVerifC47", level="exploration", quick_s=25, thorough_s=600,
         rule="one run = one seeded schedule of 2-6 clients x 1-6 GetOrCompute calls over 1-5 IDs on a cache sized between "
